@@ -399,6 +399,7 @@ pub fn limit_changes(cx: &mut Ctx) {
 
 pub fn c04(cx: &mut Ctx) {
     limit_changes(cx);
+    huge_lengths(cx, &ORACLE_P, "huge_length");
     let limits: Vec<u128> = vec![0, 1, 2, 3, 4, 5, 6, 7, 8, 1023, 1024, 1025, 51199, 51200, 51201, 4294967295];
     for &l in &limits {
         let mut ns: Vec<u128> = vec![l, l + 1];
@@ -895,7 +896,27 @@ pub fn edge_tails(cx: &mut Ctx, cmp: &[&str], note: &str, stop_on_error: bool) {
     }
 }
 
+/// Declared lengths at the integer boundaries with the payload limit raised to 2^32 - 1: the head is accepted,
+/// body bytes start to arrive (in the same read as the head, in later reads, in full windows).
+pub fn huge_lengths(cx: &mut Ctx, cmp: &[&str], note: &str) {
+    for n in [4294967295u64, 4294967294, 4294967236, 4294967200, 4294966272, 2147483648, 2147483647, 65536] {
+        for pad in [0usize, 30] {
+            let mut head = b"PUT /".to_vec();
+            head.extend(std::iter::repeat(b'h').take(pad));
+            head.extend(format!(" HTTP/1.1\r\nContent-Length: {}\r\n\r\n", n).as_bytes());
+            let body: Vec<u8> = (0..2500).map(|i| b'a' + (i % 26) as u8).collect();
+            // head and first body bytes in one read, then more body
+            let mut one = head.clone();
+            one.extend(&body[..700]);
+            cx.push(script(4294967295, cmp, 0, vec![rd(&one), rd(&body[700..])], note));
+            // head alone, then body in two reads with an empty read in between
+            cx.push(script(4294967295, cmp, 0, vec![rd(&head), rd(&body[..1024]), rd_err(libc::EAGAIN), rd(&body[1024..])], note));
+        }
+    }
+}
+
 pub fn c03(cx: &mut Ctx) {
+    huge_lengths(cx, &["nopanic", "recvs", "calls"], "huge_length");
     edge_tails(cx, &["nopanic", "recvs", "calls"], "edge_tail", false);
     let n = if cx.thorough { 8000 } else { 800 };
     let o = cx.opts();
